@@ -154,6 +154,33 @@ def fam_canaries(fc):
     return out
 
 
+def apalache_inductive(ctx):
+    """unbounded argument for the exactness clause: IndInv of spec/BudgetInd.tla is inductive (Apalache)"""
+    import os
+    import shutil
+    import subprocess
+    exe = shutil.which('apalache-mc')
+    if exe is None:
+        ctx.mc_runs.append({'module': 'BudgetInd', 'engine': 'apalache', 'ok': None, 'note': 'apalache-mc not installed: skipped'})
+        return
+    ok = True
+    for tag, init, length in (('base', 'Init', 0), ('step', 'IndInit', 1)):
+        out_dir = os.path.join(ctx.work, 'apalache_' + tag)
+        try:
+            p = subprocess.run([exe, 'check', f'--init={init}', '--inv=IndInv', f'--length={length}', f'--out-dir={out_dir}', 'BudgetInd.tla'],
+                               cwd=tlc.SPEC_DIR, stdout=subprocess.PIPE, stderr=subprocess.STDOUT, text=True, timeout=600)
+        except subprocess.TimeoutExpired:
+            raise tlc.MachineryError('apalache timed out on BudgetInd')
+        good = 'EXITCODE: OK' in p.stdout
+        if not good and 'violat' not in p.stdout.lower() and 'EXITCODE: ERROR (12)' not in p.stdout:
+            raise tlc.MachineryError('apalache failed on BudgetInd: ' + p.stdout[-600:])
+        ok = ok and good
+        shutil.rmtree(out_dir, ignore_errors=True)
+    ctx.mc_runs.append({'module': 'BudgetInd', 'engine': 'apalache', 'obligations': ['Init => IndInv', 'IndInv /\\ Next => IndInv\''], 'ok': ok})
+    if not ok:
+        ctx.violation('design-level: the budget invariant is not inductive (BudgetInd)', {'property': ctx.pid, 'mc': 'BudgetInd'})
+
+
 def run(ctx, replay=None):
     rnd = random.Random(ctx.seed)
     if replay is not None:
@@ -181,6 +208,7 @@ def run(ctx, replay=None):
     if not r['ok']:
         ctx.violation('design-level: MC_Budget self-composition violated', {'property': ctx.pid, 'mc': 'MC_Budget', 'out': r['out'][-3000:]})
     alpha = tlc.printed_json(r['out'], 'ALPHABET')[0]
+    apalache_inductive(ctx)
 
     # ---- leg B/C
     families = []
